@@ -348,7 +348,9 @@ def run(prop, tier):
         build = Build()
         exe = build.harness("plain", "emu_server", ["emu_server.c"])
         if prop == "C04":
-            plan = [("A2", (1,), 2), ("P2", (1,), 1)] if tier == "quick" else [("A2", (1, 0), 3), ("P2", (1,), 2), ("A3", (1,), 2), ("AB", (1,), 2)]
+            # A2c1: one CPU whose physical id (4) differs from its position (0): the thread's CPU-affinity row names the position
+            plan = [("A2", (1,), 2), ("P2", (1,), 1), ("A2c1", (1,), 1)] if tier == "quick" else \
+                   [("A2", (1, 0), 3), ("P2", (1,), 2), ("A3", (1,), 2), ("AB", (1,), 2), ("A2c1", (1,), 2)]
         else:
             plan = [("A2", (1, 0), 2), ("A2c1", (1,), 2)] if tier == "quick" else [("A3", (1, 0), 2), ("AB", (1, 0), 2), ("A2c1", (1, 0), 3)]
         from lib import catalog
